@@ -223,10 +223,24 @@ func run(sc scenario, propID string) (out runOut) {
 				timer = time.After(time.Duration(o.DurUs) * time.Microsecond)
 			}
 		}
+		wasCancelled := false
 		select {
 		case <-gate:
 		case <-timer:
 		case <-exec.Canceled():
+			wasCancelled = true
+		}
+		// C17: the flags agree with the counters at any moment, not only on entry (read between two equal readings of
+		// Attempts, so that a hedge starting in between cannot be blamed)
+		if a1 := exec.Attempts(); true {
+			first, retry := exec.IsFirstAttempt(), exec.IsRetry()
+			if a2 := exec.Attempts(); a1 == a2 && (first != (a1 == 1) || retry != (a1 > 1)) {
+				mu.Lock()
+				rec.statsOK = fmt.Sprintf("before returning: Attempts=%d but IsFirstAttempt=%v IsRetry=%v", a1, first, retry)
+				mu.Unlock()
+			}
+		}
+		if wasCancelled {
 			mu.Lock()
 			rec.cancelled, rec.finished = true, time.Now()
 			add("cancelled", rec.id)
